@@ -9,7 +9,7 @@ HARNESS = "c09"
 CONST_GROUPS = ["mqtt", "facts"]
 STATELESS = True
 TIMEOUT = 3000
-RULE = ("one case = one operation line. In-process (real code under recover, a watchdog kills an operation that does not "
+RULE = ("one case = one operation line. pubenc <topic> <payload> <qos>: Publish.EncodeTo on every body size around the 64 KiB pooled buffer and its header room (never a panic). In-process (real code under recover, a watchdog kills an operation that does not "
         "answer or allocates without bound): chan <topic> (ParseChannel over an option-token grammar: well-formed, dangling, "
         "empty, illegal tokens in every sequence up to three), mqtt <max> <bytes> (DecodePacket), frame / "
         "state <inner> (DecodeFrame / DecodeState below snappy), gossip / bcast / unicast <inner> and rawgossip / rawunicast "
@@ -363,6 +363,13 @@ def gen(rng, tier):
     # ---- channel strings (parsed before any key is looked at)
     for c in channel_strings(rng, tier):
         add("chan " + hx(c))
+    # ---- PUBLISH encoder on sizes clients / peers choose: every total around the 64 KiB buffer and its header room
+    for q in (0, 1):
+        for tl in (0, 1, 7, 17, 300):
+            for body in list(range(65520, 65545)) + [0, 1, 127, 128, 16383, 16384, 70000, 200000]:
+                pl = body - 2 - tl - (2 if q else 0)
+                if pl >= 0 and (tier == "thorough" or rng.randrange(3) == 0 or 65529 <= body <= 65538):
+                    add("pubenc %d %d %d" % (tl, pl, q))
     # ---- MQTT decoder
     sess = sessions(rng)
     limits = [65536, 65536, 65536, 0, 1, 10, 100]
